@@ -479,5 +479,14 @@ _amend("C03", "text", "Decides twenty-four local clauses (R03.1-R03.24;", "Decid
 _amend("C04", "text", "R04.31: the properties of one case clause", "R04.32: the property tests of minifyTokens see the name behind a vendor prefix; R04.31: the properties of one case clause")
 _amend("C09", "text", "R09.29 = R01.38 —", "R09.29 = R01.38, R09.30: the parentheses around the identifiers let and async stay —")
 
+_amend("C01", "text", "(R01.1-R01.55;", "(R01.1-R01.56; R01.56: node lists are sorted with a stable sort;")
+_amend("C01", "text", "Decides fifty-five structural", "Decides fifty-six structural")
+_amend("C04", "text", "R04.32: the property tests of minifyTokens", "R04.33: the cases of a unit conversion agree on its direction and use the units' factors (reference table); R04.32: the property tests of minifyTokens")
+_amend("C09", "text", "R09.30: the parentheses around the identifiers let and async stay —", "R09.30: the parentheses around the identifiers let and async stay, R09.31 = R11.9 (the escaper of ampersands in attribute code) —")
+_amend("C13", "text", "R13.10: no format package assigns to a field of the registry;", "R13.10: no format package assigns to a field of the registry; R13.11: no function stores into a params map parameter;")
+
+_amend("C08", "text", "R08.1-R08.13", "R08.1-R08.14")
+_amend("C07", "text", "R07.1-R07.13", "R07.1-R07.15")
+
 if __name__ == "__main__":
     main()
